@@ -29,6 +29,7 @@ type c03Env struct {
 	ncache   int
 	sessions []*protoSession
 	s3       *s3Sim
+	sftps    []*desync.SFTPStore
 }
 
 func chunkFile(dir string, id desync.ChunkID, unc bool) string {
@@ -70,6 +71,16 @@ func (e *c03Env) base() (desync.Store, error) {
 		return cl, nil
 	case 3:
 		return e.s3.store("pfx", e.upUnc)
+	case 4:
+		// the sftp client is stateless: one connection (child process) serves all probes of a case
+		if len(e.sftps) == 0 {
+			st, err := sftpStore(e.dir, 1, e.upUnc)
+			if err != nil {
+				return nil, err
+			}
+			e.sftps = append(e.sftps, st)
+		}
+		return noClose{e.sftps[0]}, nil
 	default:
 		up, err := desync.NewLocalStore(e.dir, desync.StoreOptions{Uncompressed: e.upUnc, SkipVerify: true}) // as `desync pull` configures it
 		if err != nil {
@@ -142,11 +153,26 @@ func (e *c03Env) closeSessions() {
 	e.sessions = nil
 }
 
+func (e *c03Env) closeAll() {
+	e.closeSessions()
+	for _, s := range e.sftps {
+		s.Close()
+	}
+	e.sftps = nil
+}
+
+type noClose struct{ desync.Store }
+
+func (noClose) Close() error { return nil }
+
 func runC03(c *fw.Case) {
 	e := &c03Env{c: c, dir: filepath.Join(c.Dir(), "store")}
 	os.MkdirAll(e.dir, 0755)
 	e.upUnc = c.Bool("up.uncompressed")
-	e.backend = c.Draw(4, "backend")
+	e.backend = c.Draw(9, "backend") % 5 // local, http, protocol, s3 twice as often as sftp (a child process per probe)
+	if e.backend == 4 && c.Tier == "quick" && !c.Chance(1, 4, "sftp.quick") {
+		e.backend = 0
+	}
 	if e.backend == 3 {
 		var err error
 		if e.s3, err = newS3Sim(); err != nil {
@@ -158,7 +184,7 @@ func runC03(c *fw.Case) {
 	e.srvSkip = c.Bool("srv.skipverify")
 	e.srvComp = c.Bool("srv.compressed")
 	e.stack = c.Draw(7, "stack")
-	defer e.closeSessions()
+	defer e.closeAll()
 	var up desync.WriteStore
 	var err error
 	if e.backend == 3 {
@@ -236,7 +262,7 @@ func runC03(c *fw.Case) {
 		return
 	}
 	other, _ := readObj(oChunk.ID())
-	names := []string{"local", "http", "protocol", "s3"}
+	names := []string{"local", "http", "protocol", "s3", "sftp"}
 	c.Class(fmt.Sprintf("%s upUnc=%v srvComp=%v srvSkip=%v stack=%d", names[e.backend], e.upUnc, e.srvComp, e.srvSkip, e.stack))
 	c.Note("backend=%s upstream-uncompressed=%v server-compressed=%v server-skipverify=%v stack=%d chunk=%d bytes stored=%d bytes", names[e.backend], e.upUnc, e.srvComp, e.srvSkip, e.stack, len(tData), len(good))
 
